@@ -98,4 +98,11 @@ CONFIG = {
         "quick": {"parts": [part("TestC19Lattice", 1, 1), part("TestC19Near", 4, 150)]},
         "thorough": {"parts": [part("TestC19Lattice", 1, 1), part("TestC19Near", 16, 1500, timeout=3000)]},
     },
+    "C18": {
+        "level": "exploration",
+        "rule": "(a) harness-owned schedule: rapid-generated single-table dataset + storage split; a streaming memstore-inclusive scan (SELECT * with an optional dimension filter - the plans that deliver rows while the scan is still running) is paused inside the callback of 1-3 generated rows; during each pause 1-8 generated points (two thirds aimed at keys, and half of those at periods, that are already stored) are inserted and processed to an exact ingestion barrier, optionally with a forced flush. Oracle: the delivered rows equal the rows the same query returned on the quiescent database immediately before (and, without a filter, the reference aggregation of the prefix in all fields); afterwards the query reflects every point. Non-trivial: a pause happened and a point processed during it belongs to a key whose row had not been delivered yet. (b) concurrent stream: an inserter, a flusher (forced flushes at generated stream positions, optional timer flushes) and 1-4 query loops run concurrently over a stream whose every prefix has a unique image (point j -> key j mod K, period (j div K) mod P, va=1, vb=key+1); each of the results must be the image of exactly one prefix L (L = sum of _points; all fields of every row consistent with it) with processed-before-start <= L <= inserted-before-return. Non-trivial: >= 2 results checked.",
+        "assumptions": ["(a) 'query start' is the moment the scan copies the memstore, which lies between the Iterate call and the first row callback; every generated point is either processed before the call or inserted inside a callback", "(b) the interleaving is the scheduler's, not the harness's: the oracle is schedule-independent, coverage of particular interleavings is sampled"],
+        "quick": {"parts": [part("TestC18", 12, 40), part("TestC18Stream", 4, 12)]},
+        "thorough": {"parts": [part("TestC18", 24, 600, timeout=3000), part("TestC18Stream", 8, 150, timeout=3000)]},
+    },
 }
